@@ -689,8 +689,9 @@ V("C11", "cli-exclude-replaces-silent", "silent", (MAIN, "    if exclude:\n     
 V("C11", "entry-key-absolute", "fire", (SCN, "    rel_path = relpath(path, root)\n    cached_entry = None", "    rel_path = path\n    cached_entry = None"), "files keyed by absolute path", "_scan_file")
 V("C11", "checksum-of-name", "fire", (SCN, "    checksum = calculate_checksum(path)\n", "    checksum = calculate_checksum(path) if False else str(hash(path))\n"), "checksum not of the bytes", "checksum")
 V("C11", "is-excluded-negated", "fire", (SCN, "    return spec.match_file(path)", "    return not spec.match_file(path)"), "selection inverted", "rule=R")
-V("C11", "new-caller-of-analyze", "fire", (SCN, "def generate_exclude_spec(root: Path) -> PathSpec:", "def analyze_one(path, lexer):\n    return _analyze_file(path, path, calculate_checksum(path), lexer)\n\n\ndef generate_exclude_spec(root: Path) -> PathSpec:"),
-  "analysis reachable outside the guards", "_analyze_file<-")
+V("C11", "new-caller-of-analyze-silent", "silent", (SCN, "def generate_exclude_spec(root: Path) -> PathSpec:", "def analyze_one(path, lexer):\n    return _analyze_file(path, path, calculate_checksum(path), lexer)\n\n\ndef generate_exclude_spec(root: Path) -> PathSpec:"),
+  "a new function that analyses a file without the guards, called by nothing: the files scan analyses are the same (the who-may-call table is a "
+  "complement of the evaluated walk and reports nothing when that passes)")
 V("C01", "block-end-inclusive", "fire", (SU, "TokenRange(bt[0], bt[1] + 1)", "TokenRange(bt[0], bt[1])"), "closing brace outside the block: spans end one token early", "get_blocks/exclusive-end")
 V("C01", "python-indent-ge", "fire", (PYL, "                elif line_indentation > header_indentation:", "                elif line_indentation >= header_indentation:"), "sibling function swallowed into the body", "Python.extract_blocks/indentation")
 V("C01", "python-headerline-lt", "fire", (PYL, "                if line_nr <= header_line_nr:", "                if line_nr < header_line_nr:"), "function loses its body", "Python.extract_blocks/header-line")
